@@ -1,31 +1,41 @@
 import GeoVerif.Gen.SrcGeoJson
 import GeoVerif.Props.C14
+import GeoVerif.Props.C06Src
 /-!
 # Source tie for the GeoJSON exporters, the ring orientation and the time fields (C14)
 -/
 namespace GV.C14Src
-open GV GV.GeoJson GV.Src.GeoJson
+open GV GV.GeoJson
+open GV.Src.GeoJson (Kw PolygonS BoxS CurvedS RingS LineS PointS PolyM MPolyS MLineS MPointS ShapeS
+  coordEq ensureEdgeBounds isCounterClockwise polygonInit polygonInitDefault
+  polygonBoundingCoords boxBoundingCoords ringBoundingCoords polygonLinearRings boxLinearRings curvedLinearRings
+  ringLinearRings mpolyLinearRings boxBounds pointBounds pointCentroid polygonToGeoInterface boxToGeoInterface
+  curvedToGeoInterface ringToGeoInterface lineGeoInterface lineToGeoInterface pointGeoInterface pointToGeoInterface
+  mlineGeoInterface mlineToGeoInterface mpointGeoInterface mpointToGeoInterface mpolyToGeoInterface startDt endDt
+  propertiesJson getDtFromGeojsonProps)
+
+variable (rt : Rt)
 
 /-! ## ring orientation -/
 
 /-- the translated `ensure_edge_bounds`, seen through (longitude, latitude), is the model's `ensureEdge` -/
 theorem ensureEdgeBounds_eq (a b : Pos) :
-    ((ensureEdgeBounds a b).1.pt, (ensureEdgeBounds a b).2.pt) = ensureEdge a.pt b.pt := by
+    ((ensureEdgeBounds rt a b).1.pt, (ensureEdgeBounds rt a b).2.pt) = ensureEdge a.pt b.pt := by
   unfold ensureEdgeBounds ensureEdge
   by_cases h : absR (a.lon - b.lon) > 180 <;> by_cases h2 : a.lon < 0 <;> simp [Pos.pt, h, h2]
 
 /-- one term of the source's sum is one term of the model's shoelace sum -/
 theorem term_eq (e : Pos × Pos) :
-    ((ensureEdgeBounds e.1 e.2).2.lon - (ensureEdgeBounds e.1 e.2).1.lon) *
-        ((ensureEdgeBounds e.1 e.2).2.lat + (ensureEdgeBounds e.1 e.2).1.lat) =
+    ((ensureEdgeBounds rt e.1 e.2).2.lon - (ensureEdgeBounds rt e.1 e.2).1.lon) *
+        ((ensureEdgeBounds rt e.1 e.2).2.lat + (ensureEdgeBounds rt e.1 e.2).1.lat) =
       ((ensureEdge e.1.pt e.2.pt).2.1 - (ensureEdge e.1.pt e.2.pt).1.1) *
         ((ensureEdge e.1.pt e.2.pt).2.2 + (ensureEdge e.1.pt e.2.pt).1.2) := by
-  rw [← ensureEdgeBounds_eq]; rfl
+  rw [← ensureEdgeBounds_eq rt]; rfl
 
 /-- **`is_counter_clockwise`** of the source is the model's `isCCW` of the (longitude, latitude) ring; on the empty list
     `bounds[0]` raises `IndexError` -/
 theorem isCounterClockwise_eq (ring : List Pos) :
-    isCounterClockwise ring =
+    isCounterClockwise rt ring =
       match ring with
       | [] => .error "ERR:Index"
       | _ :: _ => .ok (isCCW (ring.map Pos.pt)) := by
@@ -41,10 +51,19 @@ theorem isCounterClockwise_eq (ring : List Pos) :
     simp only [hz, List.map_map, Function.comp_def, term_eq]
     first | rfl | simp
 
+/-- `Coordinate.__eq__` of the source is equality of (longitude, latitude, z) -/
+theorem coordEq_eq (a b : Pos) : coordEq rt a b = (a == b) := by
+  obtain ⟨x, y, z⟩ := a
+  obtain ⟨x', y', z'⟩ := b
+  simp only [coordEq]
+  rw [Bool.eq_iff_iff]
+  simp [Pos.mk.injEq]
+  tauto
+
 /-- **`GeoPolygon.__init__`** of the source stores the model's `mkOutlineP`: the ring is closed, then reversed unless
     `is_counter_clockwise(outline) ^ _is_hole`; `outline[0]` raises `IndexError` on an empty list -/
 theorem polygonInit_eq (outline : List Pos) (holes : List HoleSrc) (dt : Option TI) (props : Obj) (isHole : Bool) :
-    polygonInit outline holes dt props isHole = mkOutlineP outline isHole := by
+    polygonInit rt outline holes dt props isHole = mkOutlineP outline isHole := by
   cases outline with
   | nil => rfl
   | cons v vs =>
@@ -52,14 +71,14 @@ theorem polygonInit_eq (outline : List Pos) (holes : List HoleSrc) (dt : Option 
       cases h : (v :: vs).getLast? with
       | none => simp at h
       | some b => exact ⟨b, rfl⟩
-    have hne : ∀ l : List Pos, isCounterClockwise (v :: l) = .ok (isCCW ((v :: l).map Pos.pt)) := fun l => by
+    have hne : ∀ l : List Pos, isCounterClockwise rt (v :: l) = .ok (isCCW ((v :: l).map Pos.pt)) := fun l => by
       rw [isCounterClockwise_eq]
     simp only [polygonInit, Py.getIdx, Py.getLast_eq, hb, mkOutlineP, closeRingP, List.head?_cons, List.isEmpty_cons,
-      List.cons_append, hne]
+      List.cons_append, hne, coordEq_eq]
     by_cases h : v = b <;> cases isHole <;> simp [h] <;> split <;> simp_all
 
 /-- `GeoPolygon(outline)`: the instance with every optional argument at its default -/
-theorem polygonInitDefault_eq (outline : List Pos) : polygonInitDefault outline = mkOutlineP outline := by
+theorem polygonInitDefault_eq (outline : List Pos) : polygonInitDefault rt outline = mkOutlineP outline := by
   cases outline with
   | nil => rfl
   | cons v vs =>
@@ -67,10 +86,268 @@ theorem polygonInitDefault_eq (outline : List Pos) : polygonInitDefault outline 
       cases h : (v :: vs).getLast? with
       | none => simp at h
       | some b => exact ⟨b, rfl⟩
-    have hne : ∀ l : List Pos, isCounterClockwise (v :: l) = .ok (isCCW ((v :: l).map Pos.pt)) := fun l => by
+    have hne : ∀ l : List Pos, isCounterClockwise rt (v :: l) = .ok (isCCW ((v :: l).map Pos.pt)) := fun l => by
       rw [isCounterClockwise_eq]
     simp only [polygonInitDefault, Py.getIdx, Py.getLast_eq, hb, mkOutlineP, closeRingP, List.head?_cons, List.isEmpty_cons,
-      List.cons_append, hne]
+      List.cons_append, hne, coordEq_eq]
     by_cases h : v = b <;> simp [h] <;> split <;> simp_all
+
+/-! ## positions and rings -/
+
+/-- **`list(coord.to_float())`** as a JSON array is the model's position: `[lon, lat]` or `[lon, lat, z]` -/
+theorem toFloat_eq (p : Pos) : J.arr ((Src.GeoJson.toFloat rt p).map J.num) = posToJ p := by
+  obtain ⟨x, y, z⟩ := p
+  cases z <;> simp [Src.GeoJson.toFloat, posToJ]
+
+theorem toFloat_idx (p : Pos) : Py.getIdx (Src.GeoJson.toFloat rt p) 0 = .ok p.lon ∧ Py.getIdx (Src.GeoJson.toFloat rt p) 1 = .ok p.lat := by
+  obtain ⟨x, y, z⟩ := p
+  cases z <;> simp [Src.GeoJson.toFloat, Py.getIdx]
+
+/-- the nested comprehension `[[list(coord.to_float()) for coord in ring] for ring in rings]` as a JSON array -/
+theorem ringsJ_eq (rings : List (List Pos)) :
+    J.arr ((rings.map (fun ring => ring.map (fun c => Src.GeoJson.toFloat rt c))).map
+      (fun a => J.arr (a.map (fun b => J.arr (b.map (fun x => J.num x)))))) = J.arr (rings.map ringToJ) := by
+  simp only [List.map_map, Function.comp_def, toFloat_eq]
+  rfl
+
+theorem ringJ_eq (ring : List Pos) :
+    J.arr ((ring.map (fun c => Src.GeoJson.toFloat rt c)).map (fun b => J.arr (b.map (fun x => J.num x)))) = ringToJ ring := by
+  simp only [List.map_map, Function.comp_def, toFloat_eq]
+  rfl
+
+/-! ### receivers as the model's export sources -/
+
+/-- the keyword arguments of `to_geojson` as the exporters' `**kwargs` -/
+def kwOf (o : Opts) : Kw := ⟨o.k, o.bbox, o.extra⟩
+
+def polygonSrc (p : PolygonS) : PolySrc := .polygon p.outline p.holes
+def boxSrc (b : BoxS) : PolySrc := .box b.nw b.se b.holes
+/-- `bnd`: the value of the (abstract) `bounds` -/
+def curvedSrc (c : CurvedS) (bnd : Rat × Rat × Rat × Rat) : PolySrc := .curved c.bounding bnd c.holes
+/-- `self.angle_min == 0 and self.angle_max == 360` -/
+def ringFull (r : RingS) : Bool := r.amin == 0 && r.amax == 360
+def ringSrc (r : RingS) (bnd : Rat × Rat × Rat × Rat) : PolySrc := .ring r.outer r.inner (ringFull r) bnd r.holes
+
+theorem kw_default_k : ({} : Kw).k = none := rfl
+
+/-- the source's test (with its int literals) is `ringFull` -/
+theorem ringFull_eq (r : RingS) : ((r.amin == ((0 : Int) : Rat)) && (r.amax == ((360 : Int) : Rat))) = ringFull r := by
+  simp [ringFull]
+
+/-- **`PolygonBase.linear_rings`** on a `GeoPolygon`: the outline, then every hole's default outline reversed -/
+theorem polygonLinearRings_eq (p : PolygonS) (kw : Kw) :
+    polygonLinearRings rt p kw = .ok ((polygonSrc p).linearRings kw.k) := by
+  simp [polygonLinearRings, polygonBoundingCoords, polygonSrc, PolySrc.linearRings, PolySrc.bounding, PolySrc.holes]
+
+/-- **`GeoBox.bounding_coords`**: the five corners; the two computed corners go through the `Coordinate` constructor,
+    which is the identity on coordinates in the constructor's range (C08) -/
+theorem boxBoundingCoords_eq (b : BoxS) (kw : Kw) (h1 : PosOK b.nw) (h2 : PosOK b.se) :
+    boxBoundingCoords rt b kw = .ok ((boxSrc b).bounding kw.k) := by
+  have n1 : normalize true b.nw.lon b.se.lat = (b.nw.lon, b.se.lat) := normalize_id h1.1 h1.2.1 h2.2.2.1 h2.2.2.2
+  have n2 : normalize true b.se.lon b.nw.lat = (b.se.lon, b.nw.lat) := normalize_id h2.1 h2.2.1 h1.2.2.1 h1.2.2.2
+  simp only [boxBoundingCoords, (toFloat_idx rt b.nw).1, (toFloat_idx rt b.nw).2, (toFloat_idx rt b.se).1, (toFloat_idx rt b.se).2,
+    n1, n2, boxSrc, PolySrc.bounding]
+  cases b.nw.z <;> simp [zOr]
+
+theorem boxLinearRings_eq (b : BoxS) (kw : Kw) (h1 : PosOK b.nw) (h2 : PosOK b.se) :
+    boxLinearRings rt b kw = .ok ((boxSrc b).linearRings kw.k) := by
+  simp [boxLinearRings, boxBoundingCoords_eq rt b kw h1 h2, boxSrc, PolySrc.linearRings, PolySrc.holes]
+
+theorem curvedLinearRings_eq (c : CurvedS) (bnd : Rat × Rat × Rat × Rat) (kw : Kw) :
+    curvedLinearRings rt c kw = .ok ((curvedSrc c bnd).linearRings kw.k) := by
+  simp [curvedLinearRings, curvedSrc, PolySrc.linearRings, PolySrc.bounding, PolySrc.holes]
+
+theorem getIdx_zero {α : Type} (l : List α) :
+    Py.getIdx l 0 = match l.head? with | some x => .ok x | none => .error "ERR:Index" := by
+  cases l <;> rfl
+
+/-- **`GeoRing.bounding_coords`**: the outer arc for a full ring, else outer arc + reversed inner arc + first vertex
+    (`outer_bounds[0]` raises `IndexError` on an empty arc, which `_draw_bounds` never returns) -/
+theorem ringBoundingCoords_eq (r : RingS) (bnd : Rat × Rat × Rat × Rat) (kw : Kw) (ho : r.outer kw.k ≠ []) :
+    ringBoundingCoords rt r kw = .ok ((ringSrc r bnd).bounding kw.k) := by
+  obtain ⟨a, t, hat⟩ := List.exists_cons_of_ne_nil ho
+  simp only [ringBoundingCoords, ringSrc, PolySrc.bounding, ringFull_eq, getIdx_zero, hat]
+  cases ringFull r <;> simp
+
+/-- **`GeoRing.linear_rings`**: a full ring is an outer circle and a reversed inner circle, both closed; a wedge is one
+    closed ring; the holes follow, reversed, drawn with the same `k` -/
+theorem ringLinearRings_eq (r : RingS) (bnd : Rat × Rat × Rat × Rat) (kw : Kw) (ho : r.outer kw.k ≠ [])
+    (hi : ringFull r = true → r.inner kw.k ≠ []) :
+    ringLinearRings rt r kw = .ok ((ringSrc r bnd).linearRings kw.k) := by
+  obtain ⟨a, t, hat⟩ := List.exists_cons_of_ne_nil ho
+  simp only [ringLinearRings, ringFull_eq, ringSrc]
+  cases hf : ringFull r with
+  | true =>
+    obtain ⟨a', t', hat'⟩ := List.exists_cons_of_ne_nil (hi hf)
+    simp [PolySrc.linearRings, getIdx_zero, hat, hat']
+  | false =>
+    simp [PolySrc.linearRings, PolySrc.bounding, getIdx_zero, hat]
+
+/-! ## the geometry member (`to_geo_interface`) -/
+
+/-- **`PolygonBase.to_geo_interface`** on a `GeoPolygon` (its `bounds` pinned as the outline's bounding box) -/
+theorem polygonToGeoInterface_eq (p : PolygonS) (kw : Kw) :
+    polygonToGeoInterface rt p kw = toGeoInterface (.poly (polygonSrc p)) kw.k kw.bbox := by
+  simp only [polygonToGeoInterface, polygonLinearRings_eq, toGeoInterface, ringsJ_eq, Geom.coordinates, Geom.typeName,
+    Geom.bounds]
+  cases kw.bbox
+  · simp [oupdate, oset]
+  · simp only [polygonSrc, PolySrc.bounds]
+    cases bboxPos p.outline <;> simp [oupdate, oset, bboxToJ]
+
+/-- … on a `GeoBox` whose corners are in the constructor's range -/
+theorem boxToGeoInterface_eq (b : BoxS) (kw : Kw) (h1 : PosOK b.nw) (h2 : PosOK b.se) :
+    boxToGeoInterface rt b kw = toGeoInterface (.poly (boxSrc b)) kw.k kw.bbox := by
+  simp only [boxToGeoInterface, boxLinearRings_eq rt b _ h1 h2, toGeoInterface, ringsJ_eq, Geom.coordinates, Geom.typeName,
+    Geom.bounds]
+  cases kw.bbox <;> simp [oupdate, oset, boxSrc, PolySrc.bounds, boxBounds, bboxToJ]
+
+/-- … on a `GeoCircle` / `GeoEllipse` (vertices and `bounds` abstract; `bounds` does not raise) -/
+theorem curvedToGeoInterface_eq (c : CurvedS) (bnd : Rat × Rat × Rat × Rat) (kw : Kw) (hb : c.bounds = .ok bnd) :
+    curvedToGeoInterface rt c kw = toGeoInterface (.poly (curvedSrc c bnd)) kw.k kw.bbox := by
+  simp only [curvedToGeoInterface, curvedLinearRings_eq rt c bnd, toGeoInterface, ringsJ_eq, Geom.coordinates, Geom.typeName,
+    Geom.bounds, hb]
+  cases kw.bbox <;> simp [oupdate, oset, curvedSrc, PolySrc.bounds, bboxToJ]
+
+/-- … on a `GeoRing` (arcs abstract and non-empty; `bounds` abstract, assumed to be what the model computes) -/
+theorem ringToGeoInterface_eq (r : RingS) (bnd : Rat × Rat × Rat × Rat) (kw : Kw) (ho : r.outer kw.k ≠ [])
+    (hi : ringFull r = true → r.inner kw.k ≠ []) (hb : r.bounds = (ringSrc r bnd).bounds) :
+    ringToGeoInterface rt r kw = toGeoInterface (.poly (ringSrc r bnd)) kw.k kw.bbox := by
+  have hr := ringLinearRings_eq rt r bnd ⟨kw.k, false, []⟩ ho hi
+  simp only [ringToGeoInterface, hr, toGeoInterface, ringsJ_eq, Geom.coordinates, Geom.typeName, Geom.bounds, hb]
+  cases kw.bbox
+  · simp [oupdate, oset]
+  · cases (ringSrc r bnd).bounds <;> simp [oupdate, oset, bboxToJ]
+
+/-- **`GeoLineString.to_geo_interface`** (its `bounds` pinned as the vertex list's bounding box) -/
+theorem lineToGeoInterface_eq (l : LineS) (kw : Kw) :
+    lineToGeoInterface rt l kw = toGeoInterface (.line l.vertices) kw.k kw.bbox := by
+  simp only [lineToGeoInterface, lineGeoInterface, toGeoInterface, ringJ_eq, Geom.coordinates, Geom.typeName, Geom.bounds]
+  cases kw.bbox
+  · simp [oupdate, oset]
+  · cases bboxPos l.vertices <;> simp [oupdate, oset, bboxToJ]
+
+/-- **`GeoPoint.to_geo_interface`** -/
+theorem pointToGeoInterface_eq (p : PointS) (kw : Kw) :
+    pointToGeoInterface rt p kw = toGeoInterface (.point p.coordinate) kw.k kw.bbox := by
+  simp only [pointToGeoInterface, pointGeoInterface, toGeoInterface, toFloat_eq, Geom.coordinates, Geom.typeName, Geom.bounds]
+  cases kw.bbox <;> simp [oupdate, oset, bboxToJ, pointBounds]
+
+/-- **`MultiGeoLineString.to_geo_interface`** (`MultiShapeBase.bounds` abstract, assumed to be what the model computes) -/
+theorem mlineToGeoInterface_eq (m : MLineS) (kw : Kw)
+    (hb : m.bounds = (Geom.mline (m.geoshapes.map (·.vertices))).bounds) :
+    mlineToGeoInterface rt m kw = toGeoInterface (.mline (m.geoshapes.map (·.vertices))) kw.k kw.bbox := by
+  have hc : J.arr ((m.geoshapes.map (fun shape => shape.vertices.map (fun v => Src.GeoJson.toFloat rt v))).map
+      (fun a => J.arr (a.map (fun b => J.arr (b.map (fun x => J.num x)))))) =
+      J.arr ((m.geoshapes.map (·.vertices)).map ringToJ) := by
+    rw [← ringsJ_eq rt]; simp only [List.map_map, Function.comp_def]
+  simp only [mlineToGeoInterface, mlineGeoInterface, toGeoInterface, hc, Geom.coordinates, Geom.typeName, hb]
+  cases kw.bbox
+  · simp [oupdate, oset]
+  · cases (Geom.mline (m.geoshapes.map (·.vertices))).bounds <;> simp [oupdate, oset, bboxToJ]
+
+/-- **`MultiGeoPoint.to_geo_interface`** (`point.centroid` is the point's coordinate) -/
+theorem mpointToGeoInterface_eq (m : MPointS) (kw : Kw)
+    (hb : m.bounds = (Geom.mpoint (m.geoshapes.map (·.coordinate))).bounds) :
+    mpointToGeoInterface rt m kw = toGeoInterface (.mpoint (m.geoshapes.map (·.coordinate))) kw.k kw.bbox := by
+  have hc : J.arr ((m.geoshapes.map (fun pt => Src.GeoJson.toFloat rt (pointCentroid rt pt))).map
+      (fun b => J.arr (b.map (fun x => J.num x)))) = ringToJ (m.geoshapes.map (·.coordinate)) := by
+    rw [← ringJ_eq rt]; simp only [List.map_map, Function.comp_def, pointCentroid]
+  simp only [mpointToGeoInterface, mpointGeoInterface, toGeoInterface, hc, Geom.coordinates, Geom.typeName, hb]
+  cases kw.bbox
+  · simp [oupdate, oset]
+  · cases (Geom.mpoint (m.geoshapes.map (·.coordinate))).bounds <;> simp [oupdate, oset, bboxToJ]
+
+/-- the member loop of `MultiGeoPolygon.linear_rings`, when every member answers `linear_rings(**kwargs)` as the
+    model's export source next to it does -/
+theorem mpolyLinearRings_eq (m : MPolyS) (ps : List PolySrc) (kw : Kw)
+    (hm : List.Forall₂ (fun (x : PolyM) p => x.linearRings kw = .ok (p.linearRings kw.k)) m.geoshapes ps) :
+    mpolyLinearRings rt m kw = .ok (ps.map (fun p => p.linearRings kw.k)) := by
+  simp only [mpolyLinearRings]
+  generalize m.geoshapes = ms at hm
+  induction hm with
+  | nil => rfl
+  | cons h _ ih => simp only [Py.mapE, h, ih, List.map_cons]
+
+/-- **`MultiGeoPolygon.to_geo_interface`** -/
+theorem mpolyToGeoInterface_eq (m : MPolyS) (ps : List PolySrc) (kw : Kw)
+    (hm : List.Forall₂ (fun (x : PolyM) p => x.linearRings ⟨kw.k, false, []⟩ = .ok (p.linearRings kw.k)) m.geoshapes ps)
+    (hb : m.bounds = (Geom.mpoly ps).bounds) :
+    mpolyToGeoInterface rt m kw = toGeoInterface (.mpoly ps) kw.k kw.bbox := by
+  have hr := mpolyLinearRings_eq rt m ps ⟨kw.k, false, []⟩ hm
+  have hc : J.arr (((ps.map (fun p => p.linearRings kw.k)).map (fun shape => shape.map (fun ring =>
+        ring.map (fun c => Src.GeoJson.toFloat rt c)))).map (fun a => J.arr (a.map (fun b => J.arr (b.map (fun c =>
+        J.arr (c.map (fun x => J.num x)))))))) = J.arr (ps.map fun p => J.arr ((p.linearRings kw.k).map ringToJ)) := by
+    simp only [List.map_map, Function.comp_def, toFloat_eq]
+    rfl
+  simp only [mpolyToGeoInterface, hr, toGeoInterface, hc, Geom.coordinates, Geom.typeName, hb]
+  cases kw.bbox
+  · simp [oupdate, oset]
+  · cases (Geom.mpoly ps).bounds <;> simp [oupdate, oset, bboxToJ]
+
+/-! ## the Feature: `properties`, the time fields, `to_geojson` -/
+
+/-- `start` / `end`: `ValueError` without time bounds -/
+theorem startDt_eq (s : ShapeS) :
+    startDt rt s = match s.dt with | some t => .ok t.start | none => .error "ERR:Value" := by
+  cases h : s.dt <;> simp [startDt, h]
+
+theorem endDt_eq (s : ShapeS) :
+    endDt rt s = match s.dt with | some t => .ok t.stop | none => .error "ERR:Value" := by
+  cases h : s.dt <;> simp [endDt, h]
+
+/-- **`properties`**: a copy of `_properties` plus `datetime_start` / `datetime_end` (as datetimes) when the shape is
+    time-bounded; never raises -/
+theorem properties_eq (s : ShapeS) (g : Geom) :
+    Src.GeoJson.properties rt s = .ok (GeoJson.properties ⟨g, s.dt, s.props⟩) := by
+  cases h : s.dt <;> simp [Src.GeoJson.properties, GeoJson.properties, startDt_eq, endDt_eq, h]
+
+/-- **`_properties_json`** (`sanitize_json` pinned as the model's `sanitize`) -/
+theorem propertiesJson_eq (s : ShapeS) (g : Geom) :
+    propertiesJson rt s = .ok (sanKvs rt (GeoJson.properties ⟨g, s.dt, s.props⟩)) := by
+  simp [propertiesJson, properties_eq rt s g]
+
+/-- **`to_geojson`** of the source is the model's `toGeoJson`, whatever class the receiver has, as long as its
+    `to_geo_interface` is what the model computes for the geometry (`…ToGeoInterface_eq` above): `k` and `include_bbox` are
+    popped and handed on, the shape's sanitised properties are overridden by the caller's, what is left of `**kwargs`
+    becomes further members -/
+theorem toGeoJson_eq (s : Src) (o : Opts) (gi : Kw → Except String Obj)
+    (hgi : ∀ kw, gi kw = toGeoInterface s.geom kw.k kw.bbox) :
+    (Src.GeoJson.toGeoJson rt ⟨s.dt, s.props, gi⟩ o.props (kwOf o)).map J.obj = GeoJson.toGeoJson rt s o := by
+  simp only [Src.GeoJson.toGeoJson, hgi, propertiesJson_eq rt _ s.geom, kwOf, GeoJson.toGeoJson]
+  have hs : (⟨s.geom, s.dt, s.props⟩ : Src) = s := rfl
+  cases toGeoInterface s.geom o.k o.bbox with
+  | error e => rfl
+  | ok g =>
+    cases o.props with
+    | none => simp [Kw.rest, oset, Except.map, hs]
+    | some d => cases d <;> simp [Kw.rest, oset, Except.map, hs]
+
+/-! ## the time fields on the way back (`get_dt_from_geojson_props`) -/
+
+/-- the nested `_convert` applied to `rec.pop(field, None)` (an absent field arrives as `None`, JSON null): falsy values
+    give `None`, a string goes through `datetime.fromisoformat`, anything else is a `TypeError` -/
+theorem convert_eq (v : Option J) :
+    Src.GeoJson.getDtFromGeojsonProps.convert rt (v.getD .null) = convertTs rt v := by
+  cases v with
+  | none => simp [Src.GeoJson.getDtFromGeojsonProps.convert, convertTs, J.truthy]
+  | some j =>
+    cases j <;> simp only [Src.GeoJson.getDtFromGeojsonProps.convert, convertTs, Option.getD_some] <;> split <;>
+      first | rfl | simp_all [Except.map]
+
+/-- **`get_dt_from_geojson_props`** of the source — its result *and* what it leaves of the dict it was handed — is the
+    model's `getDt`: both fields are popped (the second from what the first pop left), no field gives `None`, one field
+    the instant, two fields `TimeInterval(start, end)` (which raises `ValueError` when `end < start`) -/
+theorem getDt_eq (rec : Obj) (ks ke : String) :
+    getDtFromGeojsonProps rt rec ks ke = getDt rt rec ks ke := by
+  simp only [getDtFromGeojsonProps, convert_eq, getDt, C06Src.init_eq]
+  cases convertTs rt (oget rec ks) with
+  | error e => rfl
+  | ok a =>
+    cases convertTs rt (oget (oerase rec ks) ke) with
+    | error e => rfl
+    | ok b =>
+      cases a <;> cases b <;> simp
+      cases TI.mk? _ _ <;> rfl
 
 end GV.C14Src
